@@ -197,15 +197,47 @@ def heap_gen_validate(work, v, profile, depth, scope="quick", simulate=None, see
     if n == 0:
         raise vf.ToolingError("generator produced no history for profile %s" % profile)
     v.add_mc(r, "gen:%s:%s" % (profile, label or depth))
-    trace = vf.drive(work, "heap", cases=cases)
-    res = vf.tlc_trace(work, "Trace_Heap", trace)
-    heap_account(v, trace, res)
+    cap = 150000
+    if n > cap:
+        # deeper enumerations are replayed as a deterministic sample (every history of the shallower depth is a prefix of these)
+        lines = open(cases).read().splitlines()
+        rnd = __import__("random").Random(seed or 1)
+        keep = sorted(rnd.sample(range(len(lines)), cap))
+        with open(cases, "w") as f:
+            for i in keep:
+                f.write(lines[i] + "\n")
+        v.notes.append("profile %s depth %s: %d of %d generated histories replayed (sampled)" % (profile, depth, cap, n))
+    trace = vf.drive(work, "heap", cases=cases, timeout=3000)
+    for part in split_trace(work, trace, 300000):
+        res = vf.tlc_trace(work, "Trace_Heap", part, timeout=3000, heap="12g")
+        heap_account(v, part, res)
+
+
+def split_trace(work, trace, maxev):
+    """Cuts a heap trace at history boundaries (Reset events) into parts of at most ~maxev events."""
+    nlines = sum(1 for _ in open(trace))
+    if nlines <= maxev:
+        return [trace]
+    parts, cur, out = [], 0, None
+    for line in open(trace):
+        if out is None or (cur >= maxev and '"op":"Reset"' in line):
+            if out:
+                out.close()
+            p = work.fresh("tracepart", ".ndjson")
+            parts.append(p)
+            out = open(p, "w")
+            cur = 0
+        out.write(line)
+        cur += 1
+    out.close()
+    return parts
 
 
 def heap_random_validate(work, v, mode, n, seed, tier):
-    trace = vf.drive(work, "heap", n=n, seed=seed, mode=mode, tier=tier)
-    res = vf.tlc_trace(work, "Trace_Heap", trace)
-    heap_account(v, trace, res)
+    trace = vf.drive(work, "heap", n=n, seed=seed, mode=mode, tier=tier, timeout=3000)
+    for part in split_trace(work, trace, 300000):
+        res = vf.tlc_trace(work, "Trace_Heap", part, timeout=3000, heap="12g")
+        heap_account(v, part, res)
 
 
 # bounded models of the specification: name -> (invariants, constants for quick, constants for thorough)
@@ -266,7 +298,12 @@ def replay(work, v, prop, path):
         res = vf.tlc_trace(work, module, trace, cfg=write_cfg(work, module + ".cfg", invariants=["Done"]))
         acct(v, trace, res)
         return v.finish()
-    raise vf.ToolingError("unknown replay family")
+    # families whose workloads are produced by a seeded driver (pairs of calls, recorded runs, command lines): the
+    # reproduction is the same stage of the pipeline with the recorded tier and seed, judged again from scratch
+    v.tier, v.seed = data.get("tier", "quick"), data.get("seed", 1)
+    vf.log("replaying by re-running the %s pipeline of %s with seed %s (looking for: %s)" % (v.tier, prop, v.seed, json.dumps(data.get("finding", {}))[:200]))
+    PIPELINES[prop](work, v, v.tier, v.seed)
+    return v.finish()
 
 
 SIMPLE_REPLAY = {}
